@@ -137,11 +137,11 @@ Definition ex6_vops : list op :=
   [ OpCreate 0 None false (Some [0; 1]) None; OpCreate 1 None false None (Some [0]) ].
 Definition ex6_eval (o : nat) : list (@prow Z) :=
   match o with
-  | 0 => [([1; 0; 0; 0; 2], 10); ([0; 3; 0; 0; 0], 11); ([0; 0; 4; 5; 0], 12)]
-  | 1 => [([6; 0; 0; 7; 0], 20); ([0; 0; 0; 0; 8], 21)]
-  | 2 => [([0; 9; 9; 0; 0], 30)]
+  | 0 => [([1; 0; 0; 0; 2], 10); ([0; 3; 0; 0; 0], 11); ([0; 0; 4; 5; 0], 12)]%Z
+  | 1 => [([6; 0; 0; 7; 0], 20); ([0; 0; 0; 0; 8], 21)]%Z
+  | 2 => [([0; 9; 9; 0; 0], 30)]%Z
   | _ => []
-  end%Z.
+  end.
 Definition ex6_ops : list eop :=
   [ ESet 0 1 [Intf 0] (1, 0, 0);
     ESet 4 0 [Sd 1; Sd 0] (1, 0, 0);
